@@ -68,6 +68,7 @@ func genSkipBody(t *rapid.T) SkipCase {
 		}
 	}
 	useDefault := rapid.IntRange(0, 2).Draw(t, "default") == 0
+	useClean := !useDefault && rapid.IntRange(0, 3).Draw(t, "clean") == 0
 	ns := rapid.IntRange(2, 6).Draw(t, "nsteps")
 	for i := 0; i < ns; i++ {
 		if i > 0 && rapid.IntRange(0, 2).Draw(t, "edit") == 0 {
@@ -90,6 +91,9 @@ func genSkipBody(t *rapid.T) SkipCase {
 		if useDefault {
 			st.Via = "default"
 		}
+		if useClean {
+			st.Via = "clean" // task 0 is called clean and started by `spok --clean`: still an ordinary cached task
+		}
 		c.Steps = append(c.Steps, st)
 	}
 	return c
@@ -99,6 +103,9 @@ func (c SkipCase) name(i int) string {
 	for _, st := range c.Steps {
 		if st.Via == "default" && i == 0 {
 			return "default"
+		}
+		if st.Via == "clean" && i == 0 {
+			return "clean"
 		}
 	}
 	return forceNames[i]
@@ -244,7 +251,11 @@ func execSkip(id string, s *ev.Shard, b *sandbox.Box, c SkipCase) *rp.Fail {
 			cwd = b.Home
 			args = append(args, "--spokfile", filepath.Base(b.Proj)+"/spokfile")
 		}
-		if st.Via != "default" {
+		switch st.Via {
+		case "default":
+		case "clean":
+			args = append(args, "--clean")
+		default:
 			args = append(args, c.name(0))
 		}
 		r := b.Run(cwd, env, runTimeout, args...)
